@@ -215,7 +215,7 @@ func instances() []inst {
 	add("minimum", `{"minimum":1,"exclusiveMinimum":true}`)
 	add("maximum", `{"maximum":1,"exclusiveMaximum":true}`)
 	add("minimum", `{"minimum":2147483648,"exclusiveMinimum":true}`)
-	for _, m := range []string{"1", "2", "3", "0.5"} {
+	for _, m := range []string{"1", "2", "3", "0.5", "2.5", "1.5"} {
 		add("multipleOf", `{"multipleOf":`+m+`}`)
 	}
 	add("minLength", `{"minLength":1}`)
@@ -258,7 +258,7 @@ func instances() []inst {
 }
 
 var enumValues = []string{
-	`null`, `true`, `false`, `0`, `1`, `2`, `3`, `-1`, `1.5`, `0.5`, `2.5`, `2147483648`, `2147483649`, `9007199254740992`,
+	`null`, `true`, `false`, `0`, `1`, `2`, `3`, `-1`, `1.5`, `0.5`, `2.5`, `5`, `6`, `15`, `7.5`, `2147483648`, `2147483649`, `9007199254740992`,
 	`""`, `"a"`, `"ab"`, `"abc"`, `"b"`, `"é"`, `"😀"`, `"é😀"`, `"1"`,
 	`[]`, `[1]`, `[1,1]`, `[1,2]`, `[1,"a"]`, `["a","a"]`, `[null]`, `[[1],[1]]`, `[{"a":1},{"a":1}]`, `[1,2,3]`, `[1.5]`, `["ab"]`,
 	`{}`, `{"a":1}`, `{"a":null}`, `{"b":1}`, `{"a":1,"b":2}`, `{"a":"x","b":null}`, `{"a":{"a":1}}`, `{"a":3,"c":[1]}`, `{"c":null}`, `{"a":"ab"}`, `{"a":true,"b":"a","c":1}`,
